@@ -236,8 +236,17 @@ def check_requests(ctx, F):
         calls = [(F.fn(x["f"])["name"], [_expr_txt(y) for y in x.get("a", [])]) for x in walk(b["body"]) if x.get("k") == "call" and "f" in x
                  and F.fn(x["f"])["name"] in LOGGER_METHODS]
         ctx.instance("C16.requests", site, {"function": site, "loc": F.floc(fid), "logs": calls})
-        if [c for c, _ in calls] != [RES[b["name"]]]:
-            ctx.violation("C16.requests", site, "%s (%s)" % (site, F.floc(fid)), "%s logs %s, expected one %s" % (site, [c for c, _ in calls], RES[b["name"]]), {})
+        # exactly one resolution event of the function's kind on every path (several sites are fine when they lie on different paths)
+        bad = None
+        for p in sym_paths(F, fid, 2):
+            ctx.paths += 1
+            if any(ev[0] == "assume" and "logger" in ev[2] and not ev[3] for ev in p):
+                continue      # no logger attached on this path: nothing can be logged
+            logs = [F.fn(ev[2])["name"] for ev in p if ev[0] == "call" and ev[2] is not None and F.fn(ev[2])["name"] in LOGGER_METHODS]
+            if logs != [RES[b["name"]]]:
+                bad = logs
+        if bad is not None or not calls:
+            ctx.violation("C16.requests", site, "%s (%s)" % (site, F.floc(fid)), "%s logs %s on a path, expected one %s" % (site, bad, RES[b["name"]]), {})
         elif len(calls[0][1]) >= 3:
             head, prong = calls[0][1][1], calls[0][1][2]
             if head != "HEAD_ID" or prong not in ("requested", "i"):
